@@ -215,6 +215,20 @@ def run(ctx):
                                       d.get("real"), d.get("evaluator")), d)
     except Exception as ex:
         ctx.correspondence_broken("compiletie7-crashed", repr(ex)[:500])
+    # level 8 (engine compile4): level 7 + records with int fields — construction (the fields last to first; RECORD n),
+    # the nil record (NIL_RECORD_REF), field reads (VECREF_VEC_DEREF 0 f; SLIDE 1 1; nil_pointer through the exception
+    # table, also inside closures and catch clauses), field assignment
+    try:
+        from checks.parts import compiletie
+        ct8 = compiletie.run_compiletie(ctx, 400 if ctx.tier == "quick" else 4000, ctx.seed, level=8)
+        if ct8:
+            for d in ct8["run_diffs"][:3]:
+                if d.get("valuevm") is not None and d.get("valuevm") == d.get("evaluator"):
+                    ctx.violation("compiletie8:real-differs-from-evaluator:case%s" % d.get("case"),
+                                  "F8 program: the real VM gives %s, the evaluator (and the value-level VM model) %s" % (
+                                      d.get("real"), d.get("evaluator")), d)
+    except Exception as ex:
+        ctx.correspondence_broken("compiletie8-crashed", repr(ex)[:500])
     ctx.assumptions.extend(NOT_MODELLED)
     ctx.coverage["disagreeing_cases"] = len(r["c02"])
     ctx.coverage["corpus_programs"] = ncorpus
